@@ -718,7 +718,8 @@ def r9_no_state_between_documents(ctx):
 def r10_shared_time_date_atoms(ctx):
     """a value that meets its declared type is not reported: the date/time field bounds of the recognisers equal the clock and the calendar (C13.R3 / R4, shared)"""
     from . import c13
-    for fn in (c13.r3_atoms, c13.r4_lengths):
+    # (and the numeric / character-set value languages themselves: R1)
+    for fn in (c13.r3_atoms, c13.r4_lengths, c13.r1_languages):
         for o in fn(ctx):
             yield o
 
